@@ -10,7 +10,7 @@ COQ_CORR_MODULE = "C14.Model C14.Spec C14.Corr C30.Model C30.Spec C30.Corr"
 COQ_CASE_TYPE = "C30.Corr.case"
 COQ_CHECK = "C30.Corr.check_case"
 COQ_MODEL_OBS = "(fun c => C30.Corr.model_obs (fst c))"
-COQ_SHARD = 100
+COQ_SHARD = 40
 DESIGN_REF = "§5 C30"
 TECHNIQUE = ("C14's theorems instantiated with the row merger as collision handler + SQL-level correspondence: one dolt_merge over three tables "
              "with identical histories, one fast-path eligible and two forced onto the row path by a CHECK / a secondary index")
@@ -31,7 +31,8 @@ REFUTED = ["stats_equal_refuted", "oracle_on_model_refuted"]
 RULE = ("row histories over pk int, a int NULL, b int NULL built per key from the change patterns (one-sided, convergent, cell-wise mergeable, "
         "same-cell conflict, delete/modify, add/add) incl. NULL cells; non-trivial = the right branch changes at least one row")
 ASSUMPTIONS = ["cells are ints below 998 (row encoding of the model)"]
-REQUIRED_TAGS = ["both-paths", "short-circuit", "conflict", "cellwise-merged", "right-add", "right-delete", "right-modify", "no-right-change", "delete-modify", "add-add", "null-cell"]
+REQUIRED_TAGS = ["multi-chunk-table", "left-edit-on-last-key-of-right-changed-chunk", "both-edit-last-key-of-left-changed-chunk",
+                 "right-edit-on-last-key-of-left-changed-chunk", "both-edit-last-key-of-right-changed-chunk", "both-paths", "short-circuit", "conflict", "cellwise-merged", "right-add", "right-delete", "right-modify", "no-right-change", "delete-modify", "add-add", "null-cell"]
 HARNESS_TIMEOUT = 2400
 
 KNOWN_KEY = "merge_prolly_rows:fast-path-stats-not-counted"
@@ -87,9 +88,32 @@ def gen_one(rng):
     return {"base": base, "left": left, "right": right}
 
 
+DIRECTED = ["boundary1", "boundary2", "boundary1-m", "boundary2-m"]
+
+
+def gen_directed(rng, scen, variant):
+    """multi-chunk tables; the harness reads the leaf chunk boundaries of the base primary index and places one side's edit
+    exactly on the last key of a chunk that the other side changed (elsewhere / on the same key), with that side's chunk
+    boundaries shifted just before, so that one side is at row level while the other still holds a chunk-level patch"""
+    return {"base": [], "left": [], "right": [], "scen": scen, "seed": rng.randrange(1 << 30), "n": rng.choice([1000, 1100, 1200]),
+            "variant": variant}
+
+
+def _src(case, out):
+    o = (out or {}).get("obs") or {}
+    return o.get("in") or case
+
+
 def gen_cases(rng, tier):
     n = 60 if tier == "quick" else 1500
-    return [gen_one(rng) for _ in range(n)]
+    cases = [gen_one(rng) for _ in range(n)]
+    for sc in DIRECTED[:2]:
+        for v in range(6 if tier == "quick" else 60):
+            cases.append(gen_directed(rng, sc, v % 6))
+    for sc in DIRECTED[2:]:
+        for v in range(2 if tier == "quick" else 30):
+            cases.append(gen_directed(rng, sc, rng.randrange(6)))
+    return cases
 
 
 def enc(a, b):
@@ -123,7 +147,8 @@ def _tobs(t):
 
 def coq_case(case, out):
     o = out.get("obs")
-    inp = "{| i_base := %s; i_left := %s; i_right := %s |}" % (_rows(case["base"]), _rows(case["left"]), _rows(case["right"]))
+    src = _src(case, out)
+    inp = "{| i_base := %s; i_left := %s; i_right := %s |}" % (_rows(src["base"]), _rows(src["left"]), _rows(src["right"]))
     if o is None or out.get("err") or o.get("merge_err"):
         bad = "{| t_rows := [(0,0);(0,0)]; t_conf := []; t_stats := (9,9,9,9) |}"
         bad2 = "{| t_rows := []; t_conf := []; t_stats := (8,8,8,8) |}"
@@ -137,6 +162,15 @@ def classify(case, out):
     if o is None or out.get("err") or o.get("merge_err"):
         return ["error"]
     t = []
+    if case.get("scen"):
+        if o.get("note"):
+            return ["directed-skipped:" + o["note"]]
+        t.append("directed:" + case["scen"])
+        t.append({"boundary1": "left-edit-on-last-key-of-right-changed-chunk", "boundary2": "both-edit-last-key-of-left-changed-chunk",
+                  "boundary1-m": "right-edit-on-last-key-of-left-changed-chunk", "boundary2-m": "both-edit-last-key-of-right-changed-chunk"}[case["scen"]])
+        if len(o.get("bounds") or []) >= 3:
+            t.append("multi-chunk-table")
+    case = _src(case, out)
     if case["left"] == case["base"] or case["right"] == case["base"] or case["left"] == case["right"]:
         t.append("short-circuit")      # MaybeShortCircuit: neither path runs
     else:
@@ -179,6 +213,7 @@ def classify(case, out):
 
 
 def nontrivial(case, out):
+    case = _src(case, out)
     return case["right"] != case["base"] and case["left"] != case["base"] and case["left"] != case["right"]
 
 
@@ -200,6 +235,8 @@ def match_known(finding, case, out):
 
 
 def shrink_candidates(case):
+    if case.get("scen"):
+        return
     ks = sorted({r["pk"] for nm in ("base", "left", "right") for r in case[nm]})
     for k in ks:
         c = {nm: [r for r in case[nm] if r["pk"] != k] for nm in ("base", "left", "right")}
